@@ -155,3 +155,24 @@ _pm.configure = _configure_mlp
 _pm.own_config = True
 _pm.contracts = contracts_mlp
 proofs.append(_pm)
+
+
+LOG_SRCS = ["sdk/src/logs/multi_log_record_processor.cc", "sdk/src/logs/multi_recordable.cc", "sdk/src/logs/read_write_log_record.cc", "sdk/src/logs/readable_log_record.cc",
+            "sdk/src/common/global_log_handler.cc", "sdk/src/common/env_variables.cc", "sdk/src/resource/resource.cc", "sdk/src/resource/resource_detector.cc", "sdk/src/version/version.cc"]
+
+
+def refute_lff(mod, proof, violations, ix, workdir, seed):
+    """directed native search on the real MultiLogRecordProcessor with mock processors: flush results x timeouts (default, zero, tiny, 1 s)"""
+    import os, re as _re, subprocess
+    binpath = R.build_native("c02_logs_native", [os.path.join(R.core.HERE, "replay", "c02_native.cc")] + [os.path.join(R.core.REPO, s) for s in LOG_SRCS], ["-O1", "-DXC_WITH_LOGS"])
+    full = subprocess.run([binpath, "lsearch"], stdout=subprocess.PIPE, stderr=subprocess.STDOUT, text=True, timeout=300).stdout
+    m = _re.findall(r"^FOUND (.*)$", full, _re.M)
+    if not m:
+        return None
+    args = m[-1].split()
+    r = R.native_check("c02_logs_native", ["c02_native.cc"], args, ["-O1", "-DXC_WITH_LOGS"], repo_sources=LOG_SRCS)
+    r["input"] = {"driver_args": args, "meaning": "lff <one digit per processor: 1 = its ForceFlush succeeds> <timeout in microseconds, -1 = default>", "found_by": "directed native search (refute mode)"}
+    return r if r["reproduced"] else None
+
+
+refuters["MultiLogRecordProcessor_ForceFlush"] = refute_lff
